@@ -834,7 +834,16 @@ mod persistence {
                                 &mut flattened_edges,
                             );
 
-                            PersistentQueryOrigin::derived(flattened_edges.drain(..))
+                            // A dependency that was flattened away may have had untracked
+                            // reads. Its leaves cannot cover those, so the serialized memo has
+                            // to be treated as untracked itself: it is still valid in the
+                            // revision it was verified in, but must be re-executed in any
+                            // later revision.
+                            if flattened_untracked_dependency(zalsa, &visited_edges) {
+                                PersistentQueryOrigin::derived_untracked(flattened_edges.drain(..))
+                            } else {
+                                PersistentQueryOrigin::derived(flattened_edges.drain(..))
+                            }
                         }
                         QueryOriginRef::DerivedUntracked(edges) => {
                             collect_minimum_serialized_edges(
@@ -875,6 +884,23 @@ mod persistence {
 
             map.end()
         }
+    }
+
+    /// Returns `true` if any of the function dependencies that were flattened away
+    /// (the `visited_edges` of `collect_minimum_serialized_edges`) has untracked reads.
+    fn flattened_untracked_dependency(zalsa: &Zalsa, visited_edges: &FxHashSet<QueryEdge>) -> bool {
+        visited_edges.iter().any(|edge| {
+            zalsa
+                .lookup_ingredient(edge.key().ingredient_index())
+                .as_function()
+                .and_then(|function| function.memo(zalsa, edge.key().key_index()))
+                .is_some_and(|memo| {
+                    matches!(
+                        memo.header().origin(),
+                        QueryOriginRef::DerivedUntracked(_)
+                    )
+                })
+        })
     }
 
     // Flatten the dependency edges before serialization.
